@@ -56,6 +56,7 @@ def run_shard(shard, tier, seed, wd, res):
                 s.op("fq.negate_if", (ty, a), V.n(rng.getrandbits(1)))
                 b = rng.choice([(-a) % m, a, (a + 1) % m, rng.randrange(m)])
                 s.op("fq.cmp", (ty, a), (ty, b))
+                s.op("fq." + rng.choice(["lt", "gt", "le", "ge", "pcmp", "max"]), (ty, a), (ty, b))
     else:
         z = nonres(Q)
         vals = []
@@ -80,6 +81,8 @@ def run_shard(shard, tier, seed, wd, res):
                         s.op("fq2.sgn0", tx)
                         s.op("fq2.negate_if", tx, V.n(1))
                         s.op("fq2.cmp", tx, ("q2", F.f2_neg(x)))
+                        s.op("fq2.lt", tx, ("q2", F.f2_neg(x)))
+                        s.op("fq2.gt", tx, ("q2", F.f2_neg(x)))
                         s.op("fq2.is_zero", tx)
         for x in vals:
             tx = ("q2", x)
@@ -91,6 +94,10 @@ def run_shard(shard, tier, seed, wd, res):
             y = rng.choice([F.f2_neg(x), x, (x[0], (x[1] + 1) % Q), ((x[0] + 1) % Q, x[1]), (rng.randrange(Q), x[1]), (rng.randrange(Q), rng.randrange(Q))])
             s.op("fq2.cmp", tx, ("q2", y))
             s.op("fq2.cmp", tx, ("q2", F.f2_neg(x)))
+            # the comparison operators (PartialOrd) are what the decoders use: y < -y
+            s.op("fq2.lt", tx, ("q2", F.f2_neg(x)))
+            s.op("fq2." + rng.choice(["gt", "le", "ge", "pcmp", "max"]), tx, ("q2", y))
+            s.op("fq2." + rng.choice(["lt", "gt", "pcmp"]), tx, ("q2", (rng.randrange(Q), x[1])))
     H.monitor_script(__import__("props.c18", fromlist=["x"]), s.text(), BUILDS, wd, res, shard)
 
 
